@@ -5,6 +5,7 @@ import BbRe.Lemmas.NfsInv
 import BbRe.Lemmas.NfsProps
 import BbRe.Lemmas.NfsClose
 import BbRe.Lemmas.NfsExpiry
+import BbRe.Lemmas.NfsScope
 /-!
 # C18 — NFSv4 open and lock state is accounted for and fully reclaimed
 
@@ -265,5 +266,85 @@ theorem no_clients_nothing_retained (s : State) (h : Reachable s) (hc : s.client
 
 -- hypotheses of `expiry_empties` are met by a state with a client, an open file and a held lock
 example : Reachable BbRe.Lemmas.NfsExpiry.demoState := ⟨41, 1, _, rfl⟩
+
+/-! ## `stateid_scope`
+
+About the state-ID resolution of the protocol layer of `Model/NfsState.lean`: `findOpen`
+(`getOpenOwnerFileByStateID`), `findLock` (`getLockOwnerFileByStateID`), `ioTarget`
+(`getOpenedLeafWithRegularStateID`), `cmpSeq` (`nfs40/nfs41CompareStateSeqID`), `nextSeq`
+(`nextSeqID` / `incrementSeqID`); for every state `s` whatsoever (no reachability needed). -/
+
+open BbRe.Lemmas.NfsScope in
+/-- A regular open state ID is honoured only if its `other` maps to an open-owner file that is
+still in the maps, of the presenting client (4.1: the incarnation of the session the request came
+through; 4.0 state IDs are server-wide), the current file handle is that file's handle, and the
+seqid comparison passes; 4.0 additionally: not half-closed, open-owner confirmed. -/
+theorem stateid_scope_open (s : State) (q sid sseq fh : Nat) (allowUnconfirmed : Bool)
+    (hok : (findOpen s q sid sseq fh allowUnconfirmed).st = St.ok) :
+    ∃ f, (findOpen s q sid sseq fh allowUnconfirmed).f = some f ∧
+      OpenScope s q sid sseq fh allowUnconfirmed f :=
+  findOpen_ok s q sid sseq fh allowUnconfirmed hok
+
+open BbRe.Lemmas.NfsScope in
+/-- The same for lock state IDs: a lock-owner file of a live open-owner file of the presenting
+client, on the current file handle, with a passing seqid. -/
+theorem stateid_scope_lock (s : State) (q lsid lsseq fh : Nat)
+    (hok : (findLock s q lsid lsseq fh).st = St.ok) :
+    ∃ f l, (findLock s q lsid lsseq fh).f = some f ∧ (findLock s q lsid lsseq fh).l = some l ∧
+      LockScope s q lsid lsseq fh f l :=
+  findLock_ok s q lsid lsseq fh hok
+
+open BbRe.Lemmas.NfsScope in
+/-- READ / WRITE / SETATTR with a regular state ID clone a share reservation only from the file the
+state ID is in scope of, and only if the wanted bits are granted: by the open's current
+`shareAccess` for an open state ID, by the mask captured at creation for a lock state ID. -/
+theorem stateid_scope_io (s : State) (q sid sseq fh : Nat) (want : Mask) (f : OFile)
+    (h : ioTarget s q sid sseq fh want = (St.ok, some f)) :
+    (OpenScope s q sid sseq fh false f ∧ want.subset f.share = true) ∨
+    (∃ l, LockScope s q sid sseq fh f l ∧ want.subset l.share = true) :=
+  ioTarget_ok s q sid sseq fh want f h
+
+open BbRe.Lemmas.NfsScope in
+/-- … and a state ID in scope that lacks the wanted bits gets NFS4ERR_OPENMODE: an open state ID by
+its current `shareAccess`; a lock state ID by its captured mask only (whatever the open's
+`shareAccess` has become since). -/
+theorem stateid_scope_openmode (s : State) (q sid sseq fh : Nat) (want : Mask) (f : OFile) :
+    ((findOpen s q sid sseq fh false).st = St.ok → (findOpen s q sid sseq fh false).f = some f →
+      want.subset f.share = false → ioTarget s q sid sseq fh want = (St.openmode, none)) ∧
+    (∀ l, (findOpen s q sid sseq fh false).st = St.badStateid → (findLock s q sid sseq fh).st = St.ok →
+      (findLock s q sid sseq fh).f = some f → (findLock s q sid sseq fh).l = some l →
+      ioTarget s q sid sseq fh want = if want.subset l.share then (St.ok, some f) else (St.openmode, none)) :=
+  ⟨ioTarget_openmode_open s q sid sseq fh want f, fun l => ioTarget_openmode_lock s q sid sseq fh want f l⟩
+
+open BbRe.Lemmas.NfsScope in
+/-- The seqid comparison: accepted iff equal to the server's (4.1: or 0 = "current"); otherwise
+NFS4ERR_BAD_STATEID iff the client's value is 1 … 2^31-1 ahead modulo 2^32 (a seqid from the
+future), else NFS4ERR_OLD_STATEID. -/
+theorem stateid_seq_compare (ver c srv : Nat) :
+    (cmpSeq ver c srv = St.ok ↔ (c = srv ∨ (ver = 41 ∧ c = 0))) ∧
+    (¬ (c = srv ∨ (ver = 41 ∧ c = 0)) →
+      (cmpSeq ver c srv = St.badStateid ↔ (c + 4294967296 - srv) % 4294967296 < 2147483648) ∧
+      (cmpSeq ver c srv = St.oldStateid ↔ ¬ (c + 4294967296 - srv) % 4294967296 < 2147483648)) :=
+  ⟨cmpSeq_ok_iff ver c srv, cmpSeq_not_ok ver c srv⟩
+
+open BbRe.Lemmas.NfsScope in
+/-- Wrap-around: seqids go from 2^32-1 to 1 (never 0), and across the wrap the successor of the
+server's value is still "future" (BAD_STATEID) and the predecessor still "old" (OLD_STATEID), in
+both minor versions. -/
+theorem stateid_seq_wraparound (x : Nat) (h1 : 1 ≤ x) (hx : x < 4294967296) :
+    nextSeq x ≠ 0 ∧ nextSeq x < 4294967296 ∧ (x = 4294967295 → nextSeq x = 1) ∧
+    cmpSeq 40 (nextSeq x) x = St.badStateid ∧ cmpSeq 40 x (nextSeq x) = St.oldStateid ∧
+    cmpSeq 41 (nextSeq x) x = St.badStateid ∧ cmpSeq 41 x (nextSeq x) = St.oldStateid :=
+  ⟨(nextSeq_spec x hx).1, (nextSeq_spec x hx).2.1, (nextSeq_spec x hx).2.2.1, cmpSeq_next x h1 hx⟩
+
+-- non-vacuity: in `exState` (4.1) the open state ID 2 on file 0 is in scope for the session's client,
+-- grants READ and WRITE; its lock state ID 4 too; on the other file it is refused
+example : (findOpen exState 100 2 0 1 false).st = St.ok ∧ (findLock exState 100 4 0 1).st = St.ok ∧
+    (findOpen exState 100 2 0 3 false).st = St.badStateid ∧ (findOpen exState 100 4 0 1 false).st = St.badStateid ∧
+    (ioTarget exState 100 2 0 1 Mask.write).1 = St.ok ∧ (ioTarget exState 100 4 0 1 Mask.read).1 = St.ok ∧
+    (ioTarget exState 100 2 5 1 Mask.read).1 = St.badStateid ∧ (ioTarget exState 100 2 0 3 Mask.read).1 = St.badStateid := by
+  decide
+example : cmpSeq 40 1 4294967295 = St.badStateid ∧ cmpSeq 40 4294967295 1 = St.oldStateid ∧
+    cmpSeq 41 0 7 = St.ok ∧ cmpSeq 40 0 7 = St.oldStateid := by decide
 
 end BbRe.Properties.C18
